@@ -55,7 +55,7 @@ def c06(chk, tier):
 
 
 def c01(chk, tier):
-    chk.explanation = "Static: R-ARRAY (interval analysis of every fixed-array index/copy), R-TYPEWRITE, R-LOOKBEHIND, R-INIT, R-STALE, R-SCANIDX, R-SCANSTOP, R-OWN (nopool configuration), R-HEAPIDX, R-UAF, R-HASHKEY."
+    chk.explanation = "Static: R-ARRAY (interval analysis of every fixed-array index/copy), R-TYPEWRITE, R-LOOKBEHIND, R-INIT, R-STALE, R-SCANIDX, R-SCANSTOP, R-OWN (nopool configuration), R-HEAPIDX, R-UAF, R-HASHKEY, R-GOTOINIT."
     rules_mem.r_array(P(), chk)
     rules_mem.r_lookbehind(P(), chk)
     rules_mem.r_init(P(), chk)
@@ -66,6 +66,7 @@ def c01(chk, tier):
     rules_mem.r_heapidx(P(), chk)
     rules_mem.r_uaf(P(), chk)
     rules_mem.r_hashkey(P(), chk)
+    rules_mem.r_gotoinit(P(), chk)
 
 
 def c19(chk, tier):
@@ -103,6 +104,7 @@ def c13(chk, tier):
     for v in bad:
         chk.violation(rid, v["key"], v["where"], v["msg"])
     chk.floor(rid, len(callers), 2, "callers of mmd_transclude_source outside transclude.c")
+    rules_misc.r_once(P(), chk)
 
 
 def c18(chk, tier):
@@ -130,11 +132,14 @@ def c14(chk, tier):
     rules_esc.r_escpair(P(), chk)
     rules_dispatch.r_sibling_outline(P(), chk)
     rules_level.r_level(P(), chk)
+    rules_mem.r_stalelen(P(), chk)      # the import path hands back text and length that belong together
 
 
 def c16(chk, tier):
     chk.explanation = "Static: R-BYTECLASS (classifier table neutral on >= 0x80, ctype only in the C locale / on ASCII)."
     rules_misc.r_byteclass(P(), chk)
+    rules_misc.r_highbyte(P(), chk)
+    rules_mem.r_trimidx(P(), chk)      # a byte-wise trim one element off cuts a multi-byte character
 
 
 def c20(chk, tier):
@@ -142,12 +147,16 @@ def c20(chk, tier):
     rules_wrapper.r_wrapper_order(P(), chk)
     rules_wrapper.r_metakey(P(), chk)
     rules_wrapper.r_wrapbit(P(), chk)
+    rules_wrapper.r_wrapper_pure(P(), chk)
 
 
 def c11(chk, tier):
     chk.explanation = "Static: R-METAKEY one key normal form at store and at every comparison / lookup (necessary condition only)."
     rules_wrapper.r_metakey(P(), chk)
     rules_mem.r_scanstop(P(), chk)     # value/key scans stop at the end of input ("EOF without newline" clause)
+    rules_mem.r_trimidx(P(), chk)      # no character lost at the end of a value
+    rules_esc.r_wsflag(P(), chk)       # whitespace normalisation neither swallows nor doubles a blank
+    rules_wrapper.r_metawindow(P(), chk)
 
 
 def c10(chk, tier):
@@ -171,6 +180,7 @@ def c09(chk, tier):
     rules_wrap.r_ptrptr(P(), chk)
     rules_format.r_formatpair(P(), chk)
     rules_format.r_editdelta(P(), chk)
+    rules_mem.r_stalelen(P(), chk)
 
 
 PROPS = {
